@@ -27,7 +27,7 @@ func devMain(args []string) int {
 		show := fs.Int("show", 5, "")
 		fs.Parse(args[1:])
 		ft, ok := fam.Presets[*feat]
-		if !ok && *feat != "lib" && *feat != "chain" && *feat != "shadow" && *feat != "groups" && *feat != "keys" && *feat != "softnest" {
+		if !ok && *feat != "lib" && *feat != "chain" && *feat != "shadow" && *feat != "groups" && *feat != "keys" && *feat != "softnest" && *feat != "reenter" {
 			fmt.Println("unknown preset")
 			return 2
 		}
@@ -37,6 +37,8 @@ func devMain(args []string) int {
 			cats = fam.Sample(fam.Chain([]cat.Opts{{Recover: true}}, false), *seed, *n)
 		case "shadow":
 			cats = fam.Sample(fam.Shadow([]cat.Opts{{Recover: true}}, false), *seed, *n)
+		case "reenter":
+			cats = fam.Sample(fam.Reenter([]cat.Opts{{Recover: true}, {Recover: false}}, false), *seed, *n)
 		case "softnest":
 			cats = fam.Sample(fam.SoftNest([]cat.Opts{{Recover: true}}, false), *seed, *n)
 		case "keys":
